@@ -37,8 +37,9 @@ def list? {α : Type} (f : String → Option α) (t : String) : Option (List α)
 def jwk? (t : String) : Option (Option Jwk) :=
   if t = "-" then some none else
   match t.splitOn "." with
-  | [a, b, c, d, e] => do
-    pure (some { isRsa := (← bool? a), rsaBytes := (← b.toNat?), valid := (← bool? c), thumb := (← d.toNat?), alg := (← e.toNat?) })
+  | [a, b, c, d, e, f] => do
+    pure (some { isRsa := (← bool? a), rsaBytes := (← b.toNat?), valid := (← bool? c), thumb := (← d.toNat?), alg := (← e.toNat?),
+                 kidMember := (← f.toNat?) })
   | _ => none
 
 def ver? (t : String) : Option (Nat × Ver) :=
@@ -138,7 +139,12 @@ def evalReq (kv : List (String × String)) : Option String := do
     | .getChallenge, .ok (.attested _ _) => "1"
     | .getChallenge, _ => if rq.attest then "0" else "-"
     | _, _ => "-"
-  pure s!"{verdict} n={if nl then 1 else 0}{if after then 1 else 0} acc={accS} rev={revS} fp={fpS}"
+  -- new-account: WHICH account answered — an existing one (the account of the embedded key) or a new one
+  let whoS := match h, r with
+    | .newAccount, .ok (.account id) => s!"a{id}"
+    | .newAccount, .ok .newAccount => "new"
+    | _, _ => "-"
+  pure s!"{verdict} n={if nl then 1 else 0}{if after then 1 else 0} acc={accS} rev={revS} who={whoS} fp={fpS}"
 
 def evalRoute (kv : List (String × String)) : Option String := do
   let m ← method? (← lookup kv "m")
